@@ -603,7 +603,7 @@ func (c *Ctx) termEdges(fns map[*ssa.Function]bool) []termEdge {
 					continue
 				}
 				cc := ci.Common()
-				callees := c.refineByFieldStores(cc, c.M.Callees(cc))
+				callees := c.refineByFailedAssert(ci, c.refineByFieldStores(cc, c.M.Callees(cc)))
 				if len(callees) == 0 {
 					continue
 				}
@@ -611,6 +611,25 @@ func (c *Ctx) termEdges(fns map[*ssa.Function]bool) []termEdge {
 				var why []string
 				hasSame := false
 				schemaMode := false
+				// an argument that is the caller's data on one path and a schema taken out of it on another (`if other, ok
+				// := typeOrData.(*RefSchema); ok { typeOrData = other.object }`) makes the call both: it is entered into the
+				// data-mode and into the schema-mode analysis
+				mixedMode := false
+				for _, a := range cc.Args {
+					if phi, isPhi := a.(*ssa.Phi); isPhi && !c.isSDKValue(a) {
+						sdk, data := false, false
+						for _, pe := range phi.Edges {
+							if c.isSDKValue(pe) {
+								sdk = true
+							} else {
+								data = true
+							}
+						}
+						if sdk && data {
+							mixedMode = true
+						}
+					}
+				}
 				for _, a := range cc.Args {
 					if c.isSDKValue(a) {
 						for l := range L[a] {
@@ -666,6 +685,9 @@ func (c *Ctx) termEdges(fns map[*ssa.Function]bool) []termEdge {
 						continue
 					}
 					out = append(out, termEdge{fn, g, ci, class, isRef, strings.Join(why, "; "), schemaMode})
+					if mixedMode && !schemaMode {
+						out = append(out, termEdge{fn, g, ci, "OTHER", isRef, "a schema taken out of the caller's input on one path", true})
+					}
 				}
 			}
 		}
@@ -1221,13 +1243,71 @@ func (c *Ctx) entryGuards(edges []termEdge, e termEdge) string {
 	return "; entered from " + strings.Join(parts, ", ")
 }
 
+// refineByFailedAssert: an invoke on a value that, on the way to the call, failed a comma-ok assertion to an interface
+// I (`if x, ok := v.(I); ok { ... return }; v.m()`) cannot reach a method of a type that implements I.
+func (c *Ctx) refineByFailedAssert(ci ssa.CallInstruction, callees []*ssa.Function) []*ssa.Function {
+	cc := ci.Common()
+	if !cc.IsInvoke() {
+		return callees
+	}
+	var excluded []*types.Interface
+	for _, cond := range core.CondsAt(ci.Block()) {
+		ex, ok := cond.V.(*ssa.Extract)
+		if !ok || ex.Index != 1 || cond.True {
+			continue
+		}
+		ta, ok := ex.Tuple.(*ssa.TypeAssert)
+		if !ok || !ta.CommaOk || ta.X != cc.Value {
+			continue
+		}
+		if it, ok := ta.AssertedType.Underlying().(*types.Interface); ok {
+			excluded = append(excluded, it)
+		}
+	}
+	if len(excluded) == 0 {
+		return callees
+	}
+	var out []*ssa.Function
+	for _, g := range callees {
+		keep := true
+		if recv := g.Signature.Recv(); recv != nil {
+			for _, it := range excluded {
+				if types.Implements(recv.Type(), it) || types.Implements(types.NewPointer(derefType(recv.Type())), it) {
+					keep = false
+				}
+			}
+		}
+		if keep {
+			out = append(out, g)
+		}
+	}
+	return out
+}
+
 // refineByFieldStores: an invoke on a value loaded from an unexported struct field can only reach the dynamic types
 // ever stored into that field inside the module (unexported: nobody else can write it).
 func (c *Ctx) refineByFieldStores(cc *ssa.CallCommon, callees []*ssa.Function) []*ssa.Function {
 	if !cc.IsInvoke() {
 		return callees
 	}
-	ld, ok := cc.Value.(*ssa.UnOp)
+	// the value the method is invoked on: a load of the field, possibly narrowed by a type assertion to another
+	// interface (`x, ok := r.field.(someInterface); x.m()`) - the dynamic type is the field's either way
+	recv := cc.Value
+	for i := 0; i < 3; i++ {
+		switch x := recv.(type) {
+		case *ssa.Extract:
+			recv = x.Tuple
+			continue
+		case *ssa.TypeAssert:
+			recv = x.X
+			continue
+		case *ssa.ChangeInterface:
+			recv = x.X
+			continue
+		}
+		break
+	}
+	ld, ok := recv.(*ssa.UnOp)
 	if !ok || ld.Op != token.MUL {
 		return callees
 	}
@@ -1330,6 +1410,10 @@ func (c *Ctx) ruleTermSchemaMode(rule string, all []termEdge, fns map[*ssa.Funct
 		}
 		seen[k] = true
 		n++
+		if why := c.visitedPairsGuard(all, e, reach); reach(e.to)[e.from] && why != "" {
+			c.R.Ok(rule, k, c.M.InstrPos(e.site), "schema-mode reference dereference on a cycle", why)
+			continue
+		}
 		if reach(e.to)[e.from] {
 			c.R.Bad(rule, k, c.M.InstrPos(e.site), "schema-versus-schema comparison recurses through a reference with nothing to bound it",
 				"both sides are dereferenced and compared again, and "+c.M.Key(e.to)+" leads back to "+c.M.Key(e.from)+"; the compared schema is itself cyclic for a recursive scope, so there is no shrinking input: comparing two recursive schemas (even a schema with itself) never returns (fatal stack overflow)")
@@ -1338,6 +1422,127 @@ func (c *Ctx) ruleTermSchemaMode(rule string, all []termEdge, fns map[*ssa.Funct
 		}
 	}
 	c.R.Note("%s (schema mode): %d schema-mode reference dereferences among %d functions", rule, n, len(fns))
+}
+
+// visitedPairsGuard: the schema-mode recursion through the dereference e is bounded by a set of visited pairs:
+//
+//	(1) the dereferencing function has a map-typed parameter P whose key is built from SDK-typed pointers (the consumer's
+//	    object and the producer's: finitely many pairs); the dereferencing call is reached only on the not-found outcome
+//	    of a comma-ok lookup in P and after an insertion into P - a pair that is found returns without going on. Every
+//	    cycle through e passes e's own function, so nothing gets round the test;
+//	(2) the set is the same all the way round: among the functions on cycles through e, every call from a function that
+//	    has a parameter of P's type to another that has one hands on the caller's own parameter; and a call that leaves
+//	    this family (into a public ValidateCompatibility, which starts a fresh set) is not a schema-mode hand-over - it
+//	    passes data, whose descent the data-mode analysis bounds.
+//
+// Each pair is entered at most once per comparison: the depth is bounded by the number of pairs of objects.
+func (c *Ctx) visitedPairsGuard(all []termEdge, e termEdge, reach func(*ssa.Function) map[*ssa.Function]bool) string {
+	back := reach(e.to)
+	if !back[e.from] {
+		return ""
+	}
+	fn := e.from
+	var memo *ssa.Parameter
+	for _, p := range fn.Params {
+		if mt, isMap := p.Type().Underlying().(*types.Map); isMap && c.pairKey(mt.Key()) {
+			memo = p
+		}
+	}
+	if memo == nil {
+		return ""
+	}
+	notFound := func(cond core.Cond) bool {
+		ex, ok := cond.V.(*ssa.Extract)
+		if !ok || ex.Index != 1 || cond.True {
+			return false
+		}
+		lk, ok := ex.Tuple.(*ssa.Lookup)
+		return ok && lk.CommaOk && lk.X == ssa.Value(memo)
+	}
+	inserted := func(b *ssa.BasicBlock) bool {
+		for _, in := range b.Instrs {
+			if mu, ok := in.(*ssa.MapUpdate); ok && mu.Map == ssa.Value(memo) {
+				// before the dereferencing call if in its block
+				if b == e.site.Block() && !instrDominates(mu, e.site) {
+					continue
+				}
+				return true
+			}
+		}
+		return false
+	}
+	b := e.site.Block()
+	if !core.MustHold(fn, notFound)[b] || !(mustHoldGen(fn, func(core.Cond) bool { return false }, inserted)[b] || inserted(b)) {
+		return ""
+	}
+	// the call hands the set on
+	handsOn := func(x termEdge, own ssa.Value) bool {
+		for _, a := range x.site.Common().Args {
+			if a == own {
+				return true
+			}
+		}
+		return false
+	}
+	onCycle := map[*ssa.Function]bool{fn: true}
+	for f := range back {
+		if reach(f)[fn] {
+			onCycle[f] = true
+		}
+	}
+	family := func(f *ssa.Function) ssa.Value {
+		for _, p := range f.Params {
+			if types.Identical(p.Type(), memo.Type()) {
+				return p
+			}
+		}
+		return nil
+	}
+	nFamily := 0
+	for f := range onCycle {
+		own := family(f)
+		if own == nil {
+			continue
+		}
+		nFamily++
+		for _, x := range all {
+			if x.from != f || !onCycle[x.to] {
+				continue
+			}
+			if family(x.to) != nil {
+				if !handsOn(x, own) {
+					if os.Getenv("VERIF_DBG") != "" {
+						println("PAIRS not handed:", c.M.Key(f), "->", c.M.Key(x.to), c.M.InstrPos(x.site))
+					}
+					return ""
+				}
+			} else if x.schemaMode {
+				if os.Getenv("VERIF_DBG") != "" {
+					println("PAIRS schema-mode hand-over leaves the family:", c.M.Key(f), "->", c.M.Key(x.to), c.M.InstrPos(x.site))
+				}
+				return ""
+			}
+		}
+	}
+	return sprintf("bounded by a set of visited pairs: the dereferencing call is made only where the pair (own object, other object) was not found in the map parameter %s and after it was entered there - a pair that is found returns; %d functions on the cycles through it carry that set, every call among them hands on the caller's own, and no schema is handed to a function outside them: each pair of objects is entered at most once per comparison", memo.Name(), nFamily)
+}
+
+// pairKey: a map key type built from pointers to SDK types (an array or struct of them, or one pointer).
+func (c *Ctx) pairKey(t types.Type) bool {
+	switch u := t.Underlying().(type) {
+	case *types.Array:
+		return c.pairKey(u.Elem())
+	case *types.Struct:
+		for i := 0; i < u.NumFields(); i++ {
+			if !c.pairKey(u.Field(i).Type()) {
+				return false
+			}
+		}
+		return u.NumFields() > 0
+	case *types.Pointer:
+		return c.isSDKType(t)
+	}
+	return false
 }
 
 // isSDKValue: the value has an SDK schema type, possibly boxed into `any` for the call.
